@@ -147,8 +147,7 @@ JwsBad(j) ==
     \cup Chk("C04_KidIsAccountUrl", j.has_kid => j.kid_acct \in DOMAIN acctKey)
     \cup Chk("C04_SigUnderRecordedKey",
              /\ j.sig_ok
-             /\ (j.has_kid /\ j.kid_acct \in DOMAIN acctKey /\ acctKey[j.kid_acct] # "forgotten")
-                  => j.signer = acctKey[j.kid_acct])
+             /\ (j.has_kid /\ j.kid_acct \in DOMAIN acctKey) => j.signer = acctKey[j.kid_acct])
     \cup Chk("C04_KeyChangeInner", j.kind = "keyChange" => j.inner_ok)
     \cup Chk("C04_Eab", j.eab_ok)
 
@@ -174,9 +173,10 @@ Lose ==
     /\ Keep(<<cell, issued, consumed, tries, content, wire, newest, sentNonces, polls,
               pollUrl, nreq, acctKey>>) /\ bad' = {}
 
-(* The CA loses an account (outside any request).                             *)
+(* The CA loses an account (outside any request).  The key it held stays in   *)
+(* the table: requests that still name the account are judged against it.      *)
 CaForget(a) ==
-    /\ acctKey' = (a :> "forgotten") @@ acctKey
+    /\ acctKey' = acctKey
     /\ Keep(<<cell, issued, consumed, phase, tries, content, wire, answer, newest,
               sentNonces, polls, pollUrl, nreq>>) /\ bad' = {}
 
